@@ -38,17 +38,27 @@ package txnprovider
 //@ ghost rdMax uint
 //@ iface OperationParser.ValidateSuffixData
 //@   ensures result == nil ==> suffixData != nil
+// the parser's verdicts as predicates (a function of the parser and the text / delta, assumed): the file validators
+// must have asked the parser about EVERY entry of a file
+//@ spec deltaOKp(p protocol.OperationParser, d *model.DeltaModel) bool
+//@ spec sdUpdOK(p protocol.OperationParser, s string) bool
+//@ spec sdRecOK(p protocol.OperationParser, s string) bool
+//@ spec sdDeaOK(p protocol.OperationParser, s string) bool
 //@ iface OperationParser.ValidateDelta
 //@   ensures result == nil ==> delta != nil
+//@   ensures (result == nil) == deltaOKp(this, delta)
 //@ iface OperationParser.ParseSignedDataForUpdate
 //@   results m, err
 //@   ensures err == nil ==> m != nil
+//@   ensures (err == nil) == sdUpdOK(this, compactJWS)
 //@ iface OperationParser.ParseSignedDataForRecover
 //@   results m, err
 //@   ensures err == nil ==> m != nil
+//@   ensures (err == nil) == sdRecOK(this, compactJWS)
 //@ iface OperationParser.ParseSignedDataForDeactivate
 //@   results m, err
 //@   ensures err == nil ==> m != nil
+//@   ensures (err == nil) == sdDeaOK(this, compactJWS)
 //
 //@ func (*OperationProvider).validateURI
 //@   requires provOK(h)
@@ -97,15 +107,26 @@ package txnprovider
 //@ func (*OperationProvider).readFromAlternateCASSources
 //@   requires provOK(h)
 //
+// a proof / chunk file is accepted exactly when the parser accepts every one of its entries (all of them, not a prefix)
 //@ func (*OperationProvider).validateCoreProofFile
 //@   requires provOK(h) && cpf != nil
+//@   loop 1
+//@     invariant forall q int :: 0 <= q && q < _k ==> sdRecOK(h.parser, cpf.Operations.Recover[q])
+//@   loop 2
+//@     invariant forall q int :: 0 <= q && q < len(cpf.Operations.Recover) ==> sdRecOK(h.parser, cpf.Operations.Recover[q])
+//@     invariant forall q int :: 0 <= q && q < _k ==> sdDeaOK(h.parser, cpf.Operations.Deactivate[q])
+//@   ensures (result == nil) == ((forall q int :: 0 <= q && q < len(cpf.Operations.Recover) ==> sdRecOK(h.parser, cpf.Operations.Recover[q])) && (forall q int :: 0 <= q && q < len(cpf.Operations.Deactivate) ==> sdDeaOK(h.parser, cpf.Operations.Deactivate[q])))
 //@ func (*OperationProvider).validateProvisionalProofFile
 //@   requires provOK(h) && ppf != nil
+//@   loop 1
+//@     invariant forall q int :: 0 <= q && q < _k ==> sdUpdOK(h.parser, ppf.Operations.Update[q])
+//@   ensures (result == nil) == (forall q int :: 0 <= q && q < len(ppf.Operations.Update) ==> sdUpdOK(h.parser, ppf.Operations.Update[q]))
 //@ func (*OperationProvider).validateChunkFile
 //@   requires provOK(h) && cf != nil
 //@   loop 1
-//@     invariant forall q int :: 0 <= q && q < _k ==> cf.Deltas[q] != nil
+//@     invariant forall q int :: 0 <= q && q < _k ==> cf.Deltas[q] != nil && deltaOKp(h.parser, cf.Deltas[q])
 //@   ensures result == nil ==> (forall q int :: 0 <= q && q < len(cf.Deltas) ==> cf.Deltas[q] != nil)
+//@   ensures (result == nil) == (forall q int :: 0 <= q && q < len(cf.Deltas) ==> deltaOKp(h.parser, cf.Deltas[q]))
 //
 // size limits: raw content within maxSize, decompressed content within maxSize * factor (as coded, in uint arithmetic)
 //@ func (*OperationProvider).readFromCAS
